@@ -541,6 +541,7 @@ type GeomOpts struct {
 	MaxDepth   int                   // nesting depth of collections
 	InnerKinds []int                 // kinds allowed inside collections (nil = Kinds)
 	Point      func(r *R) geom.Point // optional override for whole points
+	BigPath    float64               // probability that a path gets a BigLen length (63 .. 65537)
 }
 
 func (o *GeomOpts) pt(r *R) geom.Point {
@@ -559,6 +560,9 @@ func (o *GeomOpts) path(r *R) []geom.Point {
 	n := r.IntRange(o.MinVerts, o.MaxVerts)
 	if o.MinVerts == 0 && r.Chance(0.25) {
 		n = 0
+	}
+	if o.BigPath > 0 && r.Chance(o.BigPath) {
+		n = BigLen(r)
 	}
 	p := make([]geom.Point, n)
 	for i := range p {
